@@ -138,6 +138,7 @@ func c16(r *Report) {
 	us := p.Func(d, "clientUpdater", "updateService")
 	c16Audit3(r, us)
 	c16Seed5(r, us)
+	c16Seed6(r)
 	c16ClientProgress(r, us)
 	r.Gate(Gate{ID: "C16.client.validated-only-after-own-verification", Fn: us, Effect: CallEffect(Fn(d, "sqlStore", "updateValidated")), Check: ErrCheck(DynField("verifier"))})
 	r.Gate(Gate{ID: "C16.client.seed-checked-before-add", Fn: us, Effect: CallEffect(Fn(d, "sqlStore", "add")), Check: ErrCheck(Fn(d, "sqlStore", "wipeOnSeedChange"))})
